@@ -237,6 +237,8 @@ func fileWriteAux(L *LState, file *lFile, idx int) int {
 	top := L.GetTop()
 	out := file.writer
 	var err error
+	// the OS offset is ahead of the logical position by the read-ahead
+	file.AbandonReadBuffer()
 	for i := idx; i <= top; i++ {
 		L.CheckTypes(i, LTNumber, LTString)
 		s := LVAsString(L.Get(i))
